@@ -3392,6 +3392,9 @@ def run(ctx):
         "flags, operations + - neg * inverse / ^n (n<=6), every result also judged on rational sample points (attained endpoints, interior, "
         "near zero) in exact arithmetic; bounds: get_bounds_for_expr on + - * / ^n sqrt exp log sin cos expressions under interval "
         "conditions. normalize: corpus (incl. evaluations at singular end points) + random expressions, with/without x>0,y>0. "
+        "poly: polynomial / rational-function fragment expressions (corpus of cancellation / zero-division / zero-power shapes + random, "
+        "depth<=4, exponents -3..4, near-miss exponents) under 11 condition sets and the fragment subexpressions of integral/examples, "
+        "real normalize vs normalizeM structurally + exact rational oracle. goalctx: case-split / induction histories on live Goal objects. "
         "linearity: Linearity / SplitRegion on corpus + generated definite integrals against linearityM / splitM. rule-models: generated "
         "Substitution / IntegrationByParts / DefiniteIntegralIdentity applications against substM / partsM / ftcM (normalize's result "
         "recorded from the real run), every base-book antiderivative differentiated; interval-fun: sqrt/exp/log/contained_in/"
@@ -3402,9 +3405,9 @@ def run(ctx):
         "magnitude); thorough: all files; quick: the file group `seed mod 4` (a quarter of the steps) within a time cap -- see "
         "example_steps.coverage for what this run reached. distinct = by canonical input string.")
     use_module_findings(ctx)
-    proofs_ok = ctx.lean_props(["Holpy.C19.Props", "Holpy.C19.Props2", "Holpy.C19.Props3", "Holpy.C19.Props4"], exes=[EXE])
+    proofs_ok = ctx.lean_props(["Holpy.C19.Props", "Holpy.C19.Props2", "Holpy.C19.Props3", "Holpy.C19.Props4", "Holpy.C19.Props5"], exes=[EXE])
     if ctx.tier == "thorough" and proofs_ok:
-        ctx.lean_check_modules(["Holpy.C19.Props", "Holpy.C19.Props2", "Holpy.C19.Props3", "Holpy.C19.Props4"])
+        ctx.lean_check_modules(["Holpy.C19.Props", "Holpy.C19.Props2", "Holpy.C19.Props3", "Holpy.C19.Props4", "Holpy.C19.Props5"])
     ctx.coverage["trusted_base"] += [
         "Mathlib v4.33 analysis modules imported by the proof files (SpecialFunctions.*Deriv, Pow.Deriv, Sqrt, IntervalIntegral)",
         "correspondence harness harness/props/c19.py: generators, s-expression writer, replacement of rules.normalize by the identity "
@@ -3417,7 +3420,9 @@ def run(ctx):
         "Const values that are integers are Python ints (the a/b special case of Op.__str__ tests isinstance(val, int))",
         "print/parse round trip is claimed on the parser's image: no Const/Const quotient, no unary minus of a positive constant, "
         "no identifier spelled like a keyword or starting with oo/inf",
-        "normalize, limits, series, Substitution(Inverse), identities, definitions, FullSimplify, IntegrateByEquation etc. are judged by "
+        "normalize_value reads division by zero by Lean's convention x / 0 = 0 and assumes the recorded is_nonzero answers true (NzOK) "
+        "and no 0 ^ (non-positive) in the input (PowOK)",
+        "normalize outside the polynomial fragment, limits, series, Substitution(Inverse), identities, definitions, FullSimplify, IntegrateByEquation etc. are judged by "
         "the numerical oracle only (recorded + generated applications), not by a theorem",
         "steps that fix a Skolem constant from a boundary value, divergent/oscillatory improper integrals and slowly converging "
         "series/limits are counted as skipped"]
@@ -3437,6 +3442,10 @@ def run(ctx):
     ctx.log("interval streams done")
     normalize_stream(ctx, I, ctx.scale(500, 8000))
     ctx.log("normalize stream done")
+    from harness.props import c19_poly
+    c19_poly.poly_model_stream(ctx, I, sys.modules[__name__], ctx.scale(700, 8000))
+    c19_poly.poly_examples_stream(ctx, I, sys.modules[__name__], ex_strings, ctx.scale(400, 5000))
+    ctx.log("normalize model (polynomial fragment) streams done")
     linearity_stream(ctx, I, ctx.scale(300, 4000))
     rule_models_stream(ctx, I, ctx.scale(60, 900))
     rule_models2_stream(ctx, I, ctx.scale(60, 900))
@@ -3445,6 +3454,8 @@ def run(ctx):
     interval_fun_stream(ctx, I, ctx.scale(1500, 30000))
     rules_stream(ctx, I, ctx.scale(80, 900))
     history_stream(ctx, I, ctx.scale(30, 400))
+    from harness.props import c19_goalctx
+    c19_goalctx.goal_context_stream(ctx, I, sys.modules[__name__], ctx.scale(40, 400))
     ctx.log("generated histories done")
     ctx.log("generated rule applications done")
     files = typed_example_files(ctx.repo)
@@ -3519,11 +3530,16 @@ def replay_one(ctx, I, rp):
         interval_cases(ctx, I, [(rp["op"], a, b, int(rp.get("n") or 0))], rng)
     elif k == "bounds":
         bounds_case(ctx, I, deser_expr(E, rp["expr"]), [deser_expr(E, c) for c in rp["conds"]], rng)
+    elif k == "goalctx":
+        from harness.props import c19_goalctx
+        c19_goalctx.replay_goalctx(ctx, I, sys.modules[__name__], rp)
     elif k == "normalize":
         with quiet():
             e = P(rp["expr"])
             conds = [P(c) for c in rp.get("conds", [])]
         normalize_check(ctx, I, e, conds, rng)
+        from harness.props import c19_poly
+        c19_poly.poly_cases(ctx, I, sys.modules[__name__], [(e, conds)], rng, stream="poly-replay")
     elif k == "rule":
         with quiet():
             before = P(rp["before"])
@@ -3615,9 +3631,22 @@ MANIFEST = {
             "pow/sqrt/exp/log, interval_contained_in_sound, interval_intersection_mem (Interval arithmetic with open/closed flags and "
             "infinite endpoints; contained_in on exact endpoints); expr_parse_print_partial (token-level round trip of the printer's "
             "bracket rules through a model of the Lark grammar; lexing of the printed string is checked per case at run time, not "
-            "proved). Structural differences between model and code are re-judged on normal forms and values before anything is "
-            "reported. NOT PROVED (numerical oracle only; mpmath at two precisions, >= 3 admissible parameter points per step: "
-            "interior, near the stated bounds, larger magnitude): normalize/Simplify/FullSimplify, Substitution's second branch "
+            "proved); normalize_value, to_poly_value, from_poly_value, collect_pairs_power_value (poly.normalize = from_poly o to_poly "
+            "on the POLYNOMIAL / RATIONAL-FUNCTION FRAGMENT - variables, rational constants, + - * /, unary minus, ^ with an integer "
+            "constant exponent: normalizeM (Poly.lean) mirrors Expr.__lt__, collect_pairs_power, collect_pairs, Monomial/Polynomial "
+            "construction and + - * / ** , to_const_poly on rational constants, to_poly, from_mono, from_poly statement by statement; "
+            "Conditions.is_nonzero is an oracle list nz recorded from the real run; for EVERY expression on which the model returns, "
+            "every nz and every environment where the members of nz are non-zero and no power has base value 0 with a non-positive "
+            "exponent value (PowOK), the value of the result under den equals the value of the input; "
+            "normalize_zero_pow_zero_counterexample: PowOK is needed, (x - x) ^ 0 is rewritten to 0). The model answers "
+            "`unsupported` where the code leaves the fragment (fractional / symbolic exponents, functions, integrals, a literal "
+            "0 ^ k with k <= 0): nothing is proved there. den is total (x / 0 = 0): the theorem does not say that the result is free of "
+            "division by zero where the input is. "
+            "Structural differences between model and code are re-judged on normal forms and values before anything is "
+            "reported (the polynomial-fragment stream compares structurally and reports any difference). NOT PROVED (numerical oracle only; mpmath at two precisions, >= 3 admissible parameter points per step: "
+            "interior, near the stated bounds, larger magnitude): normalize/Simplify/FullSimplify OUTSIDE the polynomial fragment "
+            "(functions, roots and fractional powers, symbolic exponents, abs, trigonometric reductions, integrals, limits, "
+            "evaluations, sums), idempotence of normalize, soundness of Conditions.is_nonzero, Substitution's second branch "
             "(solving g = u) and its computation of bounds by limits, SubstitutionInverse's bound computation, ApplyIdentity, the "
             "acceptance tests of Equation, ExpandPolynomial (to_poly arithmetic), limits, series, ElimInfInterval, LimitEquation, "
             "definitions, the other equation rules, DerivIntExchange, the Leibniz integral case of deriv, get_bounds_for_expr, "
@@ -3633,10 +3662,20 @@ MANIFEST = {
             "is harmless only while every parse returns a fresh expression). Identities with several side conditions (base book and "
             "goals of a file stated under conditions) are applied under every keep/negate/drop combination of their conditions as "
             "conditions of the calculation; an application is reported when the calculation's conditions admit parameter values at "
-            "which a side condition of the identity fails.",
+            "which a side condition of the identity fails. POLYNOMIAL FRAGMENT STREAMS (c19_poly.py): generated fragment "
+            "expressions (adversarial corpus: x / x, x * x ^ (-1), (x - x) ^ 0, 1 / (y - y), cancelling terms, nested powers, near "
+            "misses with fractional / symbolic exponents) under 11 condition sets, and every maximal fragment subexpression of the "
+            "expression strings recorded in integral/examples (inputs and outputs of the recorded Simplify steps among them): the real "
+            "normalize result or ZeroDivisionError is compared STRUCTURALLY with normalizeM run on the recorded is_nonzero answers, "
+            "Expr.__lt__ is compared with ltE on pairs, and the real result is judged in EXACT rational arithmetic at rational points "
+            "satisfying the conditions (where the input is defined the output must be defined and equal). GOAL HISTORIES "
+            "(c19_goalctx.py): goals with a parameter split by proof-by-cases (nested, or inside an induction step), branches visited in "
+            "random order, Simplify / FullSimplify / ExpandPolynomial applied in each branch and every step judged at parameter "
+            "values satisfying only the conditions stated for that branch and its enclosing goals.",
     "note": "Trusted: Lean kernel + propext/Classical.choice/Quot.sound, Mathlib analysis library, the harness generators and the numerical "
             "oracle (mpmath quadrature/differentiation/limits), Lark. The theorems about substM take normalize's output as given "
-            "(value hypothesis qval) - normalize itself is judged only numerically; SubstOK/PartsOK/FtcOK/LinOK spell out the analytic "
+            "(value hypothesis qval) - normalize is proved value-preserving on the polynomial fragment only (normalize_value, with "
+            "Conditions.is_nonzero's answers as an oracle assumed true: NzOK) and judged numerically elsewhere; SubstOK/PartsOK/FtcOK/LinOK spell out the analytic "
             "hypotheses the code does not check (differentiability, continuity, non-vanishing derivative, integrability, freshness of "
             "the new variable). deriv_correct excludes the Leibniz integral case. Conditions.get_bounds_for_expr as a whole, "
             "Interval.sin/cos, from_condition and ** with interval / fractional / negative exponents are unproved (oracle only). "
